@@ -81,6 +81,7 @@ func (m *CPU) Run(app risc.Application) (int, error) {
 		if ret {
 			for !m.writeBus.IsEmpty() {
 				cycle++
+				m.ctx.VerifTick(1, cycle)
 				m.writeUnit.cycle(m.ctx, m.writeBus)
 			}
 			break
